@@ -142,11 +142,19 @@ RandEntries(t, n, near, mem, clean) ==
 RandCase ==
   LET t == RE(Trees)
       vs == RE(VoterLists)
-      tg == RE(VFBlocks(t))
+      (* one case in three is "leafy": a low target and precommits on childless blocks only, so that fork blocks stay *)
+      (* unvoted and a supermajority exists only on a merge point of several leaves (seed C19d)                        *)
+      leafy == RE(1..3) = 1
+      lv == {b \in VFBlocks(t) : VFChildren(t, b) = {}}
+      (* leafy: the target is a block with at least two leaves strictly above it (a merge point) when the tree has one; *)
+      (* the precommits name leaves anywhere in the tree                                                                 *)
+      merge == {b \in VFBlocks(t) : Cardinality({l \in lv : l # b /\ VFGeq(t, l, b)}) >= 2}
+      tg == IF leafy /\ merge # {} THEN RE(merge) ELSE RE(VFBlocks(t))
       (* entries mostly at or above the target so that supermajorities occur; *)
       (* two cases in three use member ids and valid signatures only          *)
-      near == {b \in VFBlocks(t) : VFGeq(t, b, tg)}
-      clean == RE(1..3) # 1
+      near0 == {b \in VFBlocks(t) : VFGeq(t, b, tg)}
+      near == IF leafy THEN (IF RE(1..3) = 1 THEN lv ELSE (IF near0 \cap lv # {} THEN near0 \cap lv ELSE near0)) ELSE near0
+      clean == leafy \/ RE(1..3) # 1
       es == RandEntries(t, RE(1..MaxEntries), near, JMembers(vs), clean)
       c0 == [t |-> t, voters |-> vs, es |-> es, hs |-> {}, target |-> tg]
       exact == IF es = {} THEN {} ELSE JRoute(c0, es)
@@ -166,6 +174,22 @@ NextRand == Gen \/ Finish
 
 SpecAll == Init /\ [][NextAll]_vars
 SpecRand == Init /\ [][NextRand]_vars
+
+(* directed, exhaustive family (seed C19d): the base B with three branches, two of which (P, R) share the fork block *)
+(* "heavy" and the third (Q) goes through its sibling "light"; every assignment of the four voters of weights         *)
+(* 3, 2, 1, 1 to the six blocks, every target among B, heavy, light, in both id (= hash) orders of heavy and light.   *)
+(* One case per behaviour; the harness tries every order of the precommits.                                            *)
+(* [t: tree, named: the blocks that receive precommits (B, P, R, Q), tgs: B, heavy, light] *)
+DirectedShapes == { [t |-> <<0, 1, 2, 2, 1, 5>>, named |-> {1, 3, 4, 6}, tgs |-> {1, 2, 5}],
+                    [t |-> <<0, 1, 1, 3, 3, 2>>, named |-> {1, 4, 5, 6}, tgs |-> {1, 3, 2}] }
+DirectedVoters == << <<1, 3>>, <<2, 2>>, <<3, 1>>, <<4, 1>> >>
+DirectedCases ==
+  UNION {{ LET es == {[id |-> i, b |-> f[i], sig |-> "ok"] : i \in 1..4}
+               c0 == [t |-> sh.t, voters |-> DirectedVoters, es |-> es, hs |-> {}, target |-> tg]
+           IN [c0 EXCEPT !.hs = JRoute(c0, es)] : f \in [1..4 -> sh.named], tg \in sh.tgs } : sh \in DirectedShapes}
+InitDirected == /\ cs = [t |-> <<0>>, voters |-> DirectedVoters, es |-> {}, hs |-> {}, target |-> 1]
+                /\ done = FALSE /\ hist \in {<<c>> : c \in DirectedCases}
+SpecDirected == InitDirected /\ [][Finish]_vars
 
 (* expected verdicts are computed once, when the behaviour is dumped *)
 Dump == done => PrintT(<<"TRACE", ToJson([i \in 1..Len(hist) |-> [o |-> hist[i], res |-> JVerdict(hist[i])]])>>)
